@@ -177,6 +177,11 @@ def grp_group(gid, h, scale, kind_salt=0, xsd=False):
                 fb.add_line_segments([(cx, 0), (cx, cy), (0, cy)], close=True)
                 s = fb.convert_to_shape(x, y)
             nodes.append((s._element, False))
+        elif a["op"] == "move":
+            el = nodes[a["id"] - 1][0]
+            idx0 = {id(e): i + 1 for i, (e, _) in enumerate(nodes)}
+            shp = next(x for x in shapes_of(idx0.get(id(el.getparent()), 0)) if x._element is el)
+            shp.left, shp.top, shp.width, shp.height = a["x"], a["y"], a["cx"], a["cy"]
         elif a["op"] == "group":
             g = shapes_of(a["parent"]).add_group_shape()
             nodes.append((g._element, True))
